@@ -600,7 +600,12 @@ def reduce_cases(draw):
         tup = len(axes) > 1 or (fn not in NO_TUPLE and draw(st.integers(0, 3)) == 0)
         axis = list(axes) if tup else int(axes[0])
     keepdims = draw(st.integers(0, 4)) == 0
-    return dict(fn=fn, form=form, Ne=Ne, nPg=nPg, a=fe_spec(t), axis=axis, keepdims=keepdims, k=draw(SEED))
+    ord_ = None
+    if fn == "linalg.norm" and draw(st.booleans()):
+        # numpy's own signature norm(x, ord, axis): order and axis given positionally
+        form = "np_ord_pos"
+        ord_ = draw(st.sampled_from([None, 1, 2] if not isinstance(axis, list) else [None, "fro", 1]))
+    return dict(fn=fn, form=form, Ne=Ne, nPg=nPg, a=fe_spec(t), axis=axis, keepdims=keepdims, k=draw(SEED), ord=ord_)
 
 
 def check_reduce(case, rec):
@@ -627,6 +632,9 @@ def check_reduce(case, rec):
         cut, ofn = (lambda: getattr(fe, fn)(axis=axis, **kw)), (lambda x, ax: npf(x, axis=ax, **kw))
     elif form == "np":
         cut, ofn = (lambda: npf(fe, axis, **kw)), (lambda x, ax: npf(x, ax, **kw))
+    elif form == "np_ord_pos":
+        o_ = case.get("ord")
+        cut, ofn = (lambda: npf(fe, o_, axis, **kw)), (lambda x, ax: npf(x, o_, ax, **kw))
     else:
         cut, ofn = (lambda: npf(fe, axis=axis, **kw)), (lambda x, ax: npf(x, axis=ax, **kw))
     # reference 1: plain numpy on the raw array (what "the same reduction" means when FE axes are consumed)
